@@ -14,6 +14,9 @@ brought to one normal form (typing rules of the language supply the equalities b
               (zero block, child root, type root of which type position, compact witness hash) in which order —
               is the sequence C's computeCommitmentMerkleRoot / computeIdentityHashRoots /
               computeAnnotatedMerkleRoot / computeTypeAnalyses execute for that tag
+  C03.vcc     wherever the library matches on a node's combinator and calls a root/bounds algebra (Cmr, Imr, Amr,
+              NodeBounds), the function called in the arm for V is the one named after V (with the documented folds
+              AssertL/AssertR -> Cmr::case / Imr::case): commit-time IMR/AMR, from_parts, redeem data, …
   C03.cost    per combinator, the cost NodeBounds assigns (with the arguments RedeemData::new passes) equals the
               cost formula of C's analyseBounds as max-plus polynomials over child costs and type widths
   C03.width   bit width of unit / sum / product types: Final::{unit,sum,product} = computeTypeAnalyses
@@ -586,6 +589,7 @@ def run(ctx, rep):
     rep.rule("C03.iv", "IV bytes of each algebra and tag = precomputed.h through C's selector functions")
     rep.rule("C03.recipe", "per algebra and combinator: compression sequence (IV, halves in order) = C's for that tag")
     rep.rule("C03.cost", "per combinator: NodeBounds cost with RedeemData::new's arguments = analyseBounds cost (max-plus normal form)")
+    rep.rule("C03.vcc", "in every match on a node's combinator, the root/bounds algebra function called in arm V is the one named after V")
     rep.rule("C03.width", "bit width formulas of unit/sum/product = computeTypeAnalyses")
     try:
         C = cside.cfacts()
@@ -972,6 +976,71 @@ def run(ctx, rep):
                 rep.violation("C03.width", rname, "bit width of %s: Rust %s, C %s" % (rname, rw.show(), cw.show()))
     rep.floor("C03.width", rep.instances("C03.width"), 3)
 
+    # ------------------------------------------------------------------------------------------------ C03.vcc
+    import vcc
+    ALGS = {"simplicity::merkle::cmr::Cmr::": "Cmr", "simplicity::merkle::ihr::Imr::": "Imr", "simplicity::merkle::amr::Amr::": "Amr",
+            "simplicity::analysis::NodeBounds::": "NodeBounds"}
+    ctor_names = set(vcc.ALG_OF.values()) | {"case"}
+    n_vcc = 0
+    for f in sorted(F.fns.values(), key=lambda x: x.path):
+        if not f.path.startswith("simplicity::") or f.path.startswith(tuple(ALGS)):
+            continue
+        for b, si in enum_switches(f, "node::inner::Inner"):
+            if len(si[2]) < 8:
+                continue
+            tgt_count = {}
+            for v, tgt in si[2].items():
+                tgt_count[tgt] = tgt_count.get(tgt, 0) + 1
+            for v, tgt in sorted(si[2].items()):
+                if tgt_count[tgt] > 1 or v not in vcc.METHOD_OF:
+                    continue     # an or-pattern arm shared by several combinators
+                reg = f.dominated_by(tgt)
+                # uses of an algebra function in the arm: direct calls, function items passed as values
+                # (`child.imr.map(Imr::injl)`), and calls inside closures built in the arm (`.map(|(a, b)| Imr::comp(a, b))`)
+                uses = []     # (callee path, name, block, where)
+                for c in f.calls(reg):
+                    uses.append((c.callee or "", c.name, c.bb, c.where()))
+                for bb in sorted(reg):
+                    ops = []
+                    for st in f.blocks[bb]["s"]:
+                        if st[0] == "=":
+                            rv = st[2]
+                            ops += [rv.get("a"), rv.get("b")] + list(rv.get("ops", []))
+                            if rv.get("k") == "agg" and rv.get("agg") == "closure":
+                                g = F.fns.get(rv.get("closure"))
+                                if g is not None:
+                                    for c2 in g.calls():
+                                        uses.append((c2.callee or "", c2.name, bb, c2.where()))
+                    t_ = f.blocks[bb]["t"]
+                    if t_["k"] == "call":
+                        ops += list(t_["args"])
+                    for o in ops:
+                        if isinstance(o, dict) and o.get("k") == "const" and isinstance(o.get("fn"), dict):
+                            pth = o["fn"].get("res") or o["fn"].get("path") or ""
+                            uses.append((pth, pth.rsplit("::", 1)[-1], bb, f.where()))
+                for (cal, cname, cbb, cwhere) in uses:
+                    alg = [a for pfx, a in ALGS.items() if cal.startswith(pfx)]
+                    if not alg or cname not in ctor_names:
+                        continue
+                    # nested matches inside the arm (e.g. on a child's combinator) are someone else's arm
+                    inner_sw = [bb for bb, si2 in enum_switches(f, "node::inner::Inner") if bb in reg and bb != b and f.dominates(bb, cbb)]
+                    if inner_sw:
+                        continue
+                    c = type("U", (), {"name": cname, "where": staticmethod(lambda w=cwhere: w)})
+                    want = {vcc.ALG_OF[vcc.METHOD_OF[v]]}
+                    if alg[0] in ("Cmr", "Imr") and v in ("AssertL", "AssertR"):
+                        want = {"case"}
+                    if alg[0] == "Amr" and v in ("AssertL", "AssertR"):
+                        want |= {"case"} if False else set()
+                    n_vcc += 1
+                    key = "%s:%s:%s" % (fm.short(f.path), v, alg[0])
+                    if c.name in want:
+                        rep.ok("C03.vcc", key, None)
+                    else:
+                        rep.violation("C03.vcc", key, "%s: the arm for %s computes its %s with %s::%s, expected %s::%s"
+                                      % (fm.short(f.path), v, alg[0], alg[0], c.name, alg[0], "/".join(sorted(want))), c.where())
+    rep.count("vcc_sites", n_vcc)
+    rep.floor("C03.vcc", n_vcc, 60)
     # ------------------------------------------------------------------------------------------------ C03.tags
     tags_rule(F, rep, cs)
     return FINISH
